@@ -138,7 +138,86 @@ def cases(tier, rng):
             ev += ["q", "ds %d" % nq, "dc %d" % na, "dc %d" % na]; nq += 1; na += 1
         ev.append("pump %d 20 0 0" % side)
         cs.append(mk(c0, s0, ev, True, 2, k, "long-wrap"))
+    cs += l2_cases(rng, 300 if thorough else 40)
+    # the wrap at connection level: server out-queue starts just below the wrap
+    cs.append({"line": "c07l2 65500 65500 fates 0 " + " ".join("sw %s cw %s" % (hx(bytes([i % 251] * 3)), hx(bytes([(i + 7) % 251] * 2))) for i in range(60)),
+               "model": False, "key": "l2-wrap", "tags": {"src": "l2-connection", "recent": True, "faults": 0, "writes": 120, "len": 120}})
     return cs
+
+
+def l2_cases(rng, count):
+    cs = []
+    for idx in range(count):
+        nf = rng.range(0, 25)
+        fates = []
+        run = 0
+        burst = idx % 3 == 2     # every third scenario has bursts that exhaust the retry ladder, or a non-timeout error
+        for _ in range(nf):
+            f = rng.weighted([("ok", 6), ("qlost", 2), ("alost", 2), ("qdup", 1), ("stale", 1)])
+            if f in ("qlost", "alost"):
+                run += 1
+                if run > 3:      # at most three consecutive losses: the five-step retry ladder must absorb them
+                    f = "ok"
+                    run = 0
+            else:
+                run = 0
+            fates.append(f)
+        if burst:
+            at = rng.below(len(fates) + 1)
+            ins = [rng.choice(["qlost", "alost"]) for _ in range(rng.range(5, 7))] if rng.chance(2, 3) else ["neterr"]
+            fates = fates[:at] + ins + fates[at:]
+        ops = []
+        ctr = rng.below(200)
+        for _ in range(rng.range(1, 8)):
+            side = rng.choice(["cw", "cw", "sw"])
+            n = rng.weighted([(1, 3), (rng.range(2, 60), 4), (rng.range(150, 700), 2)])
+            d = bytes(((ctr + i) % 251) for i in range(n))
+            ctr += n
+            ops.append("%s %s" % (side, hx(d)))
+        line = "c07l2 %d %d fates %d %s %s" % (start(rng), start(rng), len(fates), " ".join(fates), " ".join(ops))
+        line = " ".join(line.split())
+        nfault = sum(1 for f in fates if f != "ok")
+        cs.append({"line": line, "model": False, "key": line if nfault else None,
+                   "tags": {"src": "l2-burst" if burst else "l2-connection", "recent": True, "faults": nfault, "writes": len(ops),
+                            "len": len(ops) + len(fates), "burst": burst}})
+    return cs
+
+
+def oracle_l2(case, impl):
+    p = impl.split()
+    if len(p) < 2 or p[0] != "hs":
+        return [("crash", "connection-level scenario could not run: " + impl[:200])]
+    if p[1] != "ok":
+        return [("l2-handshake", "handshake over a transparent path failed: " + impl[:100])]
+    toks = case["line"].split()
+    ops = toks[toks.index("fates") + 1 + int(toks[toks.index("fates") + 1]) + 1:]
+    acc = {"cw": b"", "sw": b""}
+    out = []
+    i = 2
+    k = 0
+    while i < len(p) and p[i] != "final":
+        side, n, err = p[i], int(p[i + 1]), int(p[i + 2])
+        data = bytes.fromhex(ops[2 * k + 1][1:])
+        if n < 0:
+            return out + [("l2-write-hangs", "Write never returned although the path stopped losing (stalled tunnel)")]
+        acc[side] += data[:max(0, n)]
+        if err == 1 and not case.get("tags", {}).get("burst"):
+            out.append(("l2-loss-surfaced", "isolated losses (at most three in a row) made Write fail with n=%d of %d" % (n, len(data))))
+        i += 3
+        k += 1
+    if i >= len(p):
+        return [("crash", "no final observation: " + impl[:200])]
+    rdc = bytes.fromhex(p[i + 1][1:])
+    rds = bytes.fromhex(p[i + 2][1:])
+    if not acc["cw"].startswith(rds):
+        out.append(("l2-order;dir=c2s", "the server read bytes that are not a prefix of what the client's writes reported as accepted (%d read, %d accepted)" % (len(rds), len(acc["cw"]))))
+    elif rds != acc["cw"]:
+        out.append(("l2-no-progress;dir=c2s", "after the path stopped losing only %d of %d accepted bytes arrived at the server" % (len(rds), len(acc["cw"]))))
+    if not acc["sw"].startswith(rdc):
+        out.append(("l2-order;dir=s2c", "the client read bytes that are not a prefix of what the server's writes accepted (%d read, %d accepted)" % (len(rdc), len(acc["sw"]))))
+    elif rdc != acc["sw"]:
+        out.append(("l2-no-progress;dir=s2c", "after the path stopped losing only %d of %d accepted bytes arrived at the client" % (len(rdc), len(acc["sw"]))))
+    return out
 
 
 def parse_end(p):
@@ -154,6 +233,10 @@ def parse_end(p):
 
 def oracle(case, impl):
     p = impl.split()
+    if case["line"].startswith("c07l2"):
+        if not p or p[0] in ("panic", "died", "timeout", "harness-error"):
+            return [("crash", "connection-level scenario crashed: " + impl[:200])]
+        return oracle_l2(case, impl)
     if not p or p[0] in ("panic", "died", "timeout", "harness-error") or "end" not in p:
         return [("crash", "history could not be run: " + impl[:200])]
     d, body = parse_end(p)
@@ -181,6 +264,8 @@ def oracle(case, impl):
 
 
 def shrink(case):
+    if case["line"].startswith("c07l2"):
+        return
     toks = case["line"].split()
     head, ev = toks[:3], []
     i = 3
